@@ -686,7 +686,7 @@ def run(tier, seed):
     for fn in sorted(os.listdir(cdir)) if os.path.isdir(cdir) else []:
         if not fn.endswith(".jsonl"): continue
         rc2, out2 = sh([binp, "-script", os.path.join(cdir, fn)], timeout=300)
-        fixed = [json.loads(ln) for ln in out2.split("\n") if ln.startswith("{")]
+        fixed = jlines(out2)
         want = sum(1 for ln in open(os.path.join(cdir, fn)) if ln.startswith("["))
         if rc2 != 0 or len(fixed) != want:
             rc, out = rc2 or 1, out2
